@@ -177,7 +177,9 @@ Definition k1_z : Dec := mkDec [] 0 30 ToNearestEven Exact Fzero false.
 Definition k1_x : Dec :=
   mkDec [8006489111310000000; 7732889109322906291] 30 31 ToNearestEven Exact Ffinite false.
 
+Definition k1_r : Dec := Eval vm_compute in ores_get (Sqrt false k1_z k1_x).
+
 Theorem Sqrt_not_correctly_rounded :
-  exists r, wf_b k1_x = true /\ Sqrt false k1_z k1_x = OkR r /\ wf_b r = true /\
-            dform r = Ffinite /\ prec r = 30 /\ sqrt_result_ok ToNearestEven k1_x r = false.
-Proof. vm_compute. eexists. repeat split. Qed.
+  wf_b k1_x = true /\ Sqrt false k1_z k1_x = OkR k1_r /\ wf_b k1_r = true /\
+  dform k1_r = Ffinite /\ prec k1_r = 30 /\ sqrt_result_ok ToNearestEven k1_x k1_r = false.
+Proof. vm_compute. repeat split. Qed.
